@@ -29,6 +29,25 @@ theorem locals_resolve_in_own_function (ents order : List Ent) (hperm : ∀ e, e
   have h := (translate_isOk_iff ents order).mp hok
   exact entErr_none_locals ents f (h.2 f (hperm f hf))
 
+/-- In an accepted module every `blockaddress(@f, %l)` — in a global initialiser, a metadata field, a
+    function body or a module-level `uselistorder` — denotes a block that the FUNCTION `@f` defines under
+    exactly that label (named, or numbered by LLVM's numbering). -/
+theorem blockaddress_resolves (ents order : List Ent) (hperm : ∀ e, e ∈ ents → e ∈ order)
+    (hok : (translate ents order).isOk = true) (e : Ent) (he : e ∈ ents) (b : String × String) (hb : b ∈ e.brefs) :
+    ∃ i f, lookup ents .global b.1 = some i ∧ ents[i]? = some f ∧ f.ns = .func ∧ f.ldefs.contains b.2 = true := by
+  have h := (translate_isOk_iff ents order).mp hok
+  have hbk := entErr_none_blocks ents e (h.2 e (hperm e he)) b hb
+  unfold blockOK at hbk
+  cases hl : lookup ents .global b.1 with
+  | none => simp [hl] at hbk
+  | some i =>
+    simp only [hl] at hbk
+    cases hf : ents[i]? with
+    | none => simp [hf] at hbk
+    | some f =>
+      simp only [hf, Bool.and_eq_true, beq_iff_eq] at hbk
+      exact ⟨i, f, rfl, hf, hbk.1, hbk.2⟩
+
 /-- the resolved edges of the result are exactly the index lookups (nothing else is ever bound) -/
 theorem edges_are_lookups (ents order : List Ent) (res : Resolved) (h : translate ents order = .ok res) :
     res.edges = (List.range ents.length).map fun i =>
@@ -47,9 +66,9 @@ theorem edges_are_lookups (ents order : List Ent) (res : Resolved) (h : translat
 /-- non-vacuity: two mutually recursive types, a global referring to a function defined later, and a
     function with a forward local reference are accepted -/
 example : (translate
-    [⟨.ty, "a", false, [(.ty, "b")], [], []⟩, ⟨.ty, "b", false, [(.ty, "a")], [], []⟩,
-     ⟨.global, "g", false, [(.func, "f")], [], []⟩, ⟨.func, "f", false, [(.global, "g")], ["x", "bb"], ["bb", "x"]⟩]
-    [⟨.func, "f", false, [(.global, "g")], ["x", "bb"], ["bb", "x"]⟩, ⟨.ty, "b", false, [(.ty, "a")], [], []⟩,
-     ⟨.global, "g", false, [(.func, "f")], [], []⟩, ⟨.ty, "a", false, [(.ty, "b")], [], []⟩]).isOk = true := by decide
+    [⟨.ty, "a", false, [(.ty, "b")], [], [], []⟩, ⟨.ty, "b", false, [(.ty, "a")], [], [], []⟩,
+     ⟨.global, "g", false, [(.func, "f")], [], [], []⟩, ⟨.func, "f", false, [(.global, "g")], ["x", "bb"], ["bb", "x"], []⟩]
+    [⟨.func, "f", false, [(.global, "g")], ["x", "bb"], ["bb", "x"], []⟩, ⟨.ty, "b", false, [(.ty, "a")], [], [], []⟩,
+     ⟨.global, "g", false, [(.func, "f")], [], [], []⟩, ⟨.ty, "a", false, [(.ty, "b")], [], [], []⟩]).isOk = true := by decide
 
 end Llir.Props.C04
